@@ -4,12 +4,14 @@ import PpciVerif.Model.IRFrag
 
 What is proved here, for ALL values: the tokenizer `Model.IRText.lexFuel` reads the printed form of
 * white space (nothing), * an identifier (`lex_id`), * a natural number (`lex_nat`), * an integer of either
-sign (`lex_int`) — back as exactly that token, whatever text follows, provided the next character cannot
-continue the token.  `Lx` is the compositional form ("`cs` lexes to `ts` in `k` steps, whatever follows"),
-`Lx.append` composes two such facts.
+sign (`lex_int`), * a quoted string (`lex_str`), * every operator / punctuation symbol (`lex_single`, `lex_minus`,
+`lex_eq`, `lex_lt`, `lex_gt`, `lex_two`), * a float literal that passes the guard `floatLexOk` (`lex_float`: the
+guard looks at the text followed by `;` only; `lexNumber_app` shows that nothing after that `;` matters)
+back as exactly that token, whatever text follows, provided the next character cannot continue the token.
 
-NOT proved: the composition over the whole printer (`tokenize (printModule fmt m) = toksModule fmt m` for every
-module of the fragment); that statement is evaluated per module by the driver (op `toks`).
+`Lx B cs ts` is the compositional form: `cs` is ASCII and lexes to `ts` in at most `cs.length` steps, whatever
+text with property `B` follows; `Lx.append` composes two such facts, `Lx.tokenize` turns a fact about a whole
+text into `tokenize cs = ok (ts ++ [eof])`.  The composition over the whole printer is `Proofs.IRLexP`.
 -/
 namespace Proofs.IRLex
 open Model.IRBuild Model.IRText Model.IRFrag
